@@ -105,13 +105,22 @@ where
                     config.max_shrink_iters = shrink_iters;
                     let mut runner = TestRunner::new(config);
                     let last_fail: Mutex<Option<vcore::Fail>> = Mutex::new(None);
-                    let result = runner.run(&make(), |v| match report.tolerate(f(&v)) {
+                    // once some worker has a failure the others stop exploring (their remaining
+                    // cases pass trivially); only the failing worker keeps running `f` to shrink
+                    let i_failed = std::cell::Cell::new(false);
+                    let result = runner.run(&make(), |v| {
+                        if report.is_frozen() && !i_failed.get() {
+                            return Ok(());
+                        }
+                        match report.tolerate(f(&v)) {
                         Ok(()) => Ok(()),
                         Err(fail) => {
+                            i_failed.set(true);
                             report.freeze();
                             let msg = fail.signature.clone();
                             *last_fail.lock().unwrap() = Some(fail);
                             Err(TestCaseError::fail(msg))
+                        }
                         }
                     });
                     match result {
